@@ -190,6 +190,26 @@ func runC09(c *Ctx) {
 						return true
 					}
 					okRets, nSucc := true, 0
+					// the helper binds the membership variable once (the has() call) and never again
+					nBind := 0
+					ast.Inspect(hd.Body, func(m ast.Node) bool {
+						switch x := m.(type) {
+						case *ast.AssignStmt:
+							for _, l := range x.Lhs {
+								if objOfIdent(info, l) == inner {
+									nBind++
+								}
+							}
+						case *ast.UnaryExpr:
+							if x.Op == token.AND && objOfIdent(info, x.X) == inner {
+								nBind += 2
+							}
+						}
+						return true
+					})
+					if nBind != 1 {
+						okRets = false
+					}
 					for _, rt := range reg.rets {
 						if len(rt.results) != 2 {
 							okRets = false
